@@ -52,6 +52,9 @@ pub enum HeuK {
     MinPaths,
     MaxVarImp,
     Rand([u8; 32]),
+    /// `seed(bytes)`, then the documented repair step `fix_import()` (harmless on a live object),
+    /// then the Rand search: the seed must survive whatever is called between seeding and searching
+    RandAfterFixImport([u8; 32]),
 }
 
 #[derive(Clone, Copy, Debug, Serialize, Deserialize, PartialEq, Eq, Hash)]
@@ -93,6 +96,13 @@ pub enum Step {
     /// the documented repair step called on a live object (it is public API; it must be
     /// harmless there)
     FixImport,
+    /// exchange two entries of the public `ac` field: the object is then another well-formed
+    /// ADF (statement i has j's condition and vice versa) and must answer like a fresh object
+    /// built from that ADF - whatever it memoised about itself before
+    SwapAc(usize, usize),
+    /// `formulacounts(true)`: memoised counting, whose numbers are the documented exception
+    /// under default features and are not judged - but asking must not change later answers
+    FormulaCountsMemo,
 }
 
 #[derive(Clone, Debug, Serialize, Deserialize, PartialEq, Eq, Hash)]
@@ -131,6 +141,11 @@ fn heuristic(adf: &mut Adf, h: HeuK) -> Heuristic<'static> {
         HeuK::MaxVarImp => Heuristic::MinModMaxVarImpMinPaths,
         HeuK::Rand(seed) => {
             adf.seed(seed);
+            Heuristic::Rand
+        }
+        HeuK::RandAfterFixImport(seed) => {
+            adf.seed(seed);
+            adf.fix_import();
             Heuristic::Rand
         }
     }
@@ -298,6 +313,15 @@ impl Obj {
                 let s = format!("{printed:?} {via_dict:?} {names:?} {mapping:?}");
                 Answer { sem: s.clone(), raw: s }
             }
+            Step::SwapAc(i, j) => {
+                let n = self.n;
+                self.adf.ac.swap(i % n, j % n);
+                Answer { sem: "swap".into(), raw: "swap".into() }
+            }
+            Step::FormulaCountsMemo => {
+                let _ = self.adf.formulacounts(true);
+                Answer { sem: "memoised-counts-not-judged".into(), raw: "memoised-counts-not-judged".into() }
+            }
             Step::FormulaCountsNaive => {
                 let c = self.adf.formulacounts(false);
                 let s = format!("{:?}", c.iter().map(|m| (m.cmodels, m.models)).collect::<Vec<_>>());
@@ -449,8 +473,14 @@ enum StepErr {
     Other(String),
 }
 
+thread_local! {
+    /// step budget (search-loop iterations) of the medium dense family: a case that needs more
+    /// is abandoned - counted, never judged - so that no case runs for minutes
+    static DENSE_BUDGET: std::cell::Cell<Option<u64>> = const { std::cell::Cell::new(None) };
+}
+
 fn guarded<T>(f: impl FnOnce() -> Result<T, String>) -> Result<T, StepErr> {
-    adf_bdd::verif::arm(crate::nogood::TICK_BUDGET);
+    adf_bdd::verif::arm(DENSE_BUDGET.with(|b| b.get()).unwrap_or(crate::nogood::TICK_BUDGET));
     match std::panic::catch_unwind(std::panic::AssertUnwindSafe(f)) {
         Ok(Ok(v)) => Ok(v),
         Ok(Err(e)) => Err(StepErr::Other(e)),
@@ -645,8 +675,7 @@ impl History {
                     _ => HeuK::MaxVarImp,
                 };
                 match rng.below(8) {
-                    0 => Step::StableCountA,
-                    1 => Step::TwoValNogood(HeuK::Simple),
+                    0 | 1 => Step::TwoValNogood(HeuK::Simple),
                     _ => Step::Nogood(heu),
                 }
             })
@@ -782,6 +811,24 @@ impl Scenario for History {
             let at = if rng.chance(2, 3) { 0 } else { rng.below(steps.len() as u64 + 1) as usize };
             steps.insert(at, Step::StableRewrite);
         }
+        // drawn last (C11 only): an exchange of two conditions through the public field, a
+        // memoised count (not judged itself), a Rand search whose seed has to survive fix_import
+        if self.property == "C11" {
+            if n >= 2 && build == Build::Native && rng.chance(1, 6) {
+                let at = rng.below(steps.len() as u64 + 1) as usize;
+                let (a, b) = (rng.below(n as u64) as usize, rng.below(n as u64) as usize);
+                steps.insert(at, Step::SwapAc(a, b));
+            }
+            if rng.chance(1, 8) {
+                let at = rng.below(steps.len() as u64 + 1) as usize;
+                steps.insert(at, Step::FormulaCountsMemo);
+            }
+            if rng.chance(1, 8) {
+                let at = rng.below(steps.len() as u64 + 1) as usize;
+                let seed = rng.bytes32();
+                steps.insert(at, if rng.chance(1, 2) { Step::Nogood(HeuK::RandAfterFixImport(seed)) } else { Step::TwoValNogood(HeuK::RandAfterFixImport(seed)) });
+            }
+        }
         HistCase { spec, build, steps }
     }
 
@@ -794,6 +841,10 @@ impl Scenario for History {
         let mut log = Fnv::new();
         let mut nontrivial = false;
         let mut result: Option<Violation> = None;
+        // medium dense family: bounded in counted search-loop iterations (deterministic), a
+        // case that needs more is abandoned
+        let dense = (7..=20).contains(&case.spec.n());
+        DENSE_BUDGET.with(|b| b.set(if dense { Some(1500) } else { None }));
 
         'run: {
             // main object
@@ -967,7 +1018,9 @@ impl Scenario for History {
                             break 'run;
                         }
                         // (1) fresh twin asked only this question (plus the extras it refers to)
-                        if !matches!(step, Step::Extra(_)) {
+                        let swapped_before = case.steps[..i].iter().any(|s| matches!(s, Step::SwapAc(..)));
+                        let refers_to_handles = matches!(step, Step::Paths(_) | Step::MaxDepth(_) | Step::VarDeps(_) | Step::Cubes(..));
+                        if !matches!(step, Step::Extra(_) | Step::SwapAc(..)) && !(swapped_before && refers_to_handles) {
                             let t = match guarded(|| fresh_answer(case, i)) {
                                 Ok(t) => t,
                                 Err(e) => {
@@ -1030,6 +1083,11 @@ impl Scenario for History {
                 stats.inc("bridged_starts");
             }
             stats.max("max_table_len", main.adf.bdd.nodes.len() as u64);
+        }
+        DENSE_BUDGET.with(|b| b.set(None));
+        if dense && result.as_ref().map(|v| v.message.contains("search did not end within")).unwrap_or(false) {
+            stats.inc("dense_case_abandoned_over_iteration_budget");
+            result = None;
         }
         let h = log.finish();
         RunResult {
@@ -1128,6 +1186,8 @@ fn answer_kind(step: &Step) -> &'static str {
         Step::Extra(_) => "extra",
         Step::RestartJson | Step::RestartDb | Step::RestartBddJson => "restart",
         Step::FixImport => "fix_import",
+        Step::SwapAc(..) => "swap",
+        Step::FormulaCountsMemo => "counts",
     }
 }
 
@@ -1152,7 +1212,15 @@ fn step_error(prop: &str, i: usize, step: &Step, e: &StepErr, ctx: &str, after_r
 /// A fresh object asked only question `i` of the history (after building the extra formulas
 /// that question refers to, transitively).
 fn fresh_answer(case: &HistCase, i: usize) -> Result<Answer, String> {
-    let mut o = Obj::fresh(&case.spec, case.build)?;
+    // the object under test is, at question i, the ADF with every earlier exchange applied
+    let mut spec = case.spec.clone();
+    let n = spec.n();
+    for s in &case.steps[..i] {
+        if let Step::SwapAc(a, b) = s {
+            spec.acs.swap(a % n, b % n);
+        }
+    }
+    let mut o = Obj::fresh(&spec, case.build)?;
     // extras are referred to by their ordinal; rebuilding all earlier extras keeps ordinals
     // aligned (they are part of what the question is about, not of the history under test)
     let needs_extras = match &case.steps[i] {
